@@ -30,13 +30,68 @@ func init() {
 	extraKinds["returndeposit2"] = candReturnDeposit2
 	extraKinds["returncrdeposit2"] = candReturnCRDeposit2
 	extraKinds["topupcr"] = candTopupCR
+	extraKinds["updatev2"] = candUpdateV2
+}
+
+// candUpdateV2 gives a DPoS 1.0 producer a (long or short) stake: it becomes
+// a 1.0&2.0 producer; for a 2.0 producer it extends the stake.
+func candUpdateV2(g *Gen, t *rapid.T, spent map[string]bool) *cand {
+	k := g.K
+	h := k.Height + 1
+	if h < k.Params.DPoSV2StartHeight {
+		return nil
+	}
+	i := g.pick(t, "updv2", func(i int, p *dstate.Producer) bool {
+		return p != nil && (p.State() == dstate.Pending || p.State() == dstate.Active || p.State() == dstate.Inactive)
+	})
+	if i < 0 {
+		return nil
+	}
+	p := g.producer(i)
+	node := g.nodeKey(i)
+	if string(p.NodePublicKey()) != string(node.PK) {
+		node = KeyByPK(p.NodePublicKey())
+		if node == nil {
+			return nil
+		}
+	}
+	var stake uint32
+	if rapid.IntRange(0, 2).Draw(t, "updv2long") > 0 {
+		stake = h + uint32(rapid.IntRange(8000, 90000).Draw(t, "stakelong"))
+	} else {
+		stake = h + k.Params.DPoSConfiguration.DPoSV2DepositCoinMinLockTime + uint32(rapid.IntRange(1, 30).Draw(t, "stakeshort"))
+	}
+	if stake <= p.Info().StakeUntil {
+		stake = p.Info().StakeUntil + uint32(rapid.IntRange(0, 20).Draw(t, "extend"))
+	}
+	tx := k.UpdateProducerTx(g.owner(i), node, p.Info().NickName, stake)
+	return &cand{"updatev2", tx, fmt.Sprintf("p%d", i), fmt.Sprintf("updatev2(p%d,%s,stake=%d)", i, p.Identity(), stake)}
+}
+
+// forced subjects: BlockEx (several transactions per subject and block) asks
+// the builders of this file for a candidate about a given subject.
+var c28Force = map[*Gen]string{}
+
+func forcedIndex(g *Gen, prefix byte) int {
+	s := c28Force[g]
+	if len(s) < 2 || s[0] != prefix {
+		return -1
+	}
+	n := 0
+	for _, c := range s[1:] {
+		if c < '0' || c > '9' {
+			return -1
+		}
+		n = n*10 + int(c-'0')
+	}
+	return n
 }
 
 // C28Kinds are the kinds above with their weights.
 func C28Kinds() map[string]int {
 	return map[string]int{
 		"registerv2": 6, "stake": 5, "voting": 9, "renewvoting": 3, "returnvotes": 4,
-		"returndeposit2": 5, "returncrdeposit2": 3, "topupcr": 1,
+		"returndeposit2": 5, "returncrdeposit2": 3, "topupcr": 1, "updatev2": 3,
 	}
 }
 
@@ -115,6 +170,9 @@ func candStake(g *Gen, t *rapid.T, spent map[string]bool) *cand {
 		return nil
 	}
 	v := rapid.IntRange(0, g.NVoters-1).Draw(t, "voter")
+	if f := forcedIndex(g, 'v'); f >= 0 {
+		v = f
+	}
 	var amount common.Fixed64
 	if rapid.Bool().Draw(t, "bigstake") {
 		amount = common.Fixed64(rapid.IntRange(1000, 20000).Draw(t, "amount")) * ELA
@@ -170,6 +228,9 @@ func candVoting(g *Gen, t *rapid.T, spent map[string]bool) *cand {
 	v := rapid.IntRange(0, g.NVoters-1).Draw(t, "voter")
 	if len(have) > 0 && rapid.IntRange(0, 9).Draw(t, "anyvoter") > 0 {
 		v = have[rapid.IntRange(0, len(have)-1).Draw(t, "votingvoter")]
+	}
+	if f := forcedIndex(g, 'v'); f >= 0 {
+		v = f
 	}
 	voter := g.voter(v)
 	rights := st.DposV2VoteRights[voter.Stake]
@@ -314,6 +375,12 @@ func candRenewVoting(g *Gen, t *rapid.T, spent map[string]bool) *cand {
 		return nil
 	}
 	v := voters[rapid.IntRange(0, len(voters)-1).Draw(t, "renewvoter")]
+	if f := forcedIndex(g, 'v'); f >= 0 {
+		if len(g.liveVotes(g.voter(f).Stake)) == 0 {
+			return nil
+		}
+		v = f
+	}
 	votes := g.liveVotes(g.voter(v).Stake)
 	n := rapid.IntRange(1, minInt(2, len(votes))).Draw(t, "nrenew")
 	perm := rapid.Permutation(votes).Draw(t, "renewed")[:n]
@@ -359,6 +426,9 @@ func candReturnVotes(g *Gen, t *rapid.T, spent map[string]bool) *cand {
 		return nil
 	}
 	v := have[rapid.IntRange(0, len(have)-1).Draw(t, "retvoter")]
+	if f := forcedIndex(g, 'v'); f >= 0 {
+		v = f
+	}
 	voter := g.voter(v)
 	free := st.DposV2VoteRights[voter.Stake] - st.UsedDposV2Votes[voter.Stake]
 	fee := k.Params.CRConfiguration.RealWithdrawSingleFee
@@ -462,6 +532,12 @@ func candReturnDeposit2(g *Gen, t *rapid.T, spent map[string]bool) *cand {
 	i := g.pick(t, "ret2", func(i int, p *dstate.Producer) bool {
 		return p != nil && len(k.UTXOs(g.owner(i).Deposit)) > 0
 	})
+	if f := forcedIndex(g, 'p'); f >= 0 {
+		i = -1
+		if p := g.producer(f); p != nil {
+			i = f
+		}
+	}
 	if i < 0 {
 		return nil
 	}
@@ -495,6 +571,17 @@ func candReturnCRDeposit2(g *Gen, t *rapid.T, spent map[string]bool) *cand {
 		return nil
 	}
 	i := idx[rapid.IntRange(0, len(idx)-1).Draw(t, "retcr2")]
+	if f := forcedIndex(g, 'c'); f >= 0 {
+		i = -1
+		for _, x := range idx {
+			if x == f {
+				i = f
+			}
+		}
+		if i < 0 {
+			return nil
+		}
+	}
 	key := g.crKey(i)
 	avail, penalty, _, totalAmt, err := k.Committee.GetDepositAmountByID(key.CID)
 	if err != nil {
